@@ -11,7 +11,7 @@ from harness.core import run_tlc, require_clean, MachineryError
 from harness.graph import Graph, Walker, Adapter
 from harness import tracecheck
 
-NAMES = ['polyB', 'A1', 'dd', 'C']
+NAMES = ['dd', 'd', 'polyB', 'A1']      # one name a substring of another; not in alphabetical order
 
 
 def cfg(n, nxt, edge=True):
